@@ -2,6 +2,7 @@ package sched
 
 import (
 	"fmt"
+	"io"
 	"time"
 
 	"verif/engine/explore"
@@ -11,6 +12,7 @@ import (
 	"verif/engine/vsync"
 	"verif/engine/vtime"
 	"verif/fw"
+	"verif/refws/deflate"
 	"verif/refws/frame"
 )
 
@@ -106,6 +108,113 @@ func c07StickySetup(k connCfg, closer string) func(c *fw.Ctx, name string) explo
 	}
 }
 
+// C07, re-reading a finished compressed message while the connection is being closed, again over
+// a transport whose Read does not return on Close. Client A has read its message to the end. At
+// 0 s one goroutine reads again from that message reader (twice) and another calls Close (the peer
+// never echoes, so Close ends up inside a transport Read that outlives every close). At 1 s a third
+// goroutine calls CloseNow. At 6 s client B is opened and reads; at 7 s late bytes of A's peer land
+// in A's stuck Read; at 8 s B's message arrives. As long as A's Close is inside the connection's
+// read buffer nobody may hand that buffer to B: every byte B reads is B's.
+func c07RereadSetup(k connCfg) func(c *fw.Ctx, name string) explore.Setup {
+	return func(c *fw.Ctx, name string) explore.Setup {
+		return func(w *vs.World) func(bool) {
+			vsync.PoolLogging = true
+			pa, pb := vpipe.New(), vpipe.New()
+			pa.StickyRead = 30 * time.Second
+			var leaks []string
+			var gotB []byte
+			var errB error
+			doneB := false
+			w.GoHarness("main", true, func() {
+				bg := vctx.Background()
+				msg := fill('A', 300)
+				if k.Flate {
+					def := &deflate.Deflater{NoContextTakeover: k.readerNoTakeover()}
+					pa.In = peerFrame(k, frame.Frame{Fin: true, Rsv1: true, Opcode: frame.OpBinary, Payload: def.Message(msg)})
+				} else {
+					pa.In = peerData(k, frame.OpBinary, true, msg)
+				}
+				a := mkConn(pa, k)
+				_, r, err := a.Reader(bg)
+				if err != nil {
+					leaks = append(leaks, "A: Reader failed: "+err.Error())
+					return
+				}
+				got, err := io.ReadAll(r)
+				if err != nil || len(got) != len(msg) {
+					leaks = append(leaks, fmt.Sprintf("A: first read gave %d bytes, err=%v", len(got), err))
+					return
+				}
+				w.GoHarness("rereaderA", false, func() {
+					buf := make([]byte, 16)
+					for i := 0; i < 2; i++ {
+						n, _ := r.Read(buf)
+						for _, v := range buf[:n] {
+							if v != 'A' {
+								leaks = append(leaks, fmt.Sprintf("A re-read byte %q", v))
+							}
+						}
+					}
+				})
+				w.GoHarness("closerA", false, func() {
+					a.Close(1000, "")
+				})
+				w.GoHarness("closeNowA", false, func() {
+					vtime.Sleep(1 * time.Second)
+					a.CloseNow()
+				})
+				w.GoHarness("peerA", false, func() {
+					vtime.Sleep(7 * time.Second)
+					pa.Send(peerData(k, frame.OpBinary, true, fill('A', 200)))
+				})
+				w.GoHarness("userB", true, func() {
+					vtime.Sleep(6 * time.Second)
+					b := mkConn(pb, k)
+					_, gotB, errB = b.Read(bg)
+					doneB = true
+					b.CloseNow()
+				})
+				w.GoHarness("peerB", false, func() {
+					vtime.Sleep(8 * time.Second)
+					pb.Send(peerData(k, frame.OpBinary, true, fill('B', 300)))
+				})
+			})
+			return func(complete bool) {
+				if !complete {
+					return
+				}
+				role := k.String()
+				if w.Panic != "" {
+					violate(c, w, name, "C07/panic/reread-close/"+role, w.Panic)
+					return
+				}
+				c.OutcomeStr(fmt.Sprintf("%s|doneB=%v|errB=%v|n=%d", name, doneB, errB != nil, len(gotB)))
+				if len(leaks) > 0 {
+					violate(c, w, name, "C07/foreign-bytes/reread-close/"+role, fmt.Sprint(leaks))
+					return
+				}
+				if !doneB {
+					violate(c, w, name, "C07/other-connection-disturbed/read/"+role, fmt.Sprintf("connection B (fresh, healthy transport, its message sent at 8 s) never finished its Read: stuck %v", stuckTasks(w)))
+					return
+				}
+				for i, v := range gotB {
+					if v != 'B' {
+						violate(c, w, name, "C07/foreign-bytes/reread-close/"+role, fmt.Sprintf("connection B read byte %q at offset %d of its message; its peer only ever sent 'B' (late bytes of connection A, whose Close was still reading, ended up in B's read buffer)", v, i))
+						return
+					}
+				}
+				if errB != nil || len(gotB) != 300 {
+					violate(c, w, name, "C07/other-connection-disturbed/read/"+role, fmt.Sprintf("connection B read %d bytes, err=%v; its peer sent one message of 300 bytes", len(gotB), errB))
+					return
+				}
+				if msg := c07PoolInvariant(); msg != "" {
+					violate(c, w, name, "C07/pool-double-put/reread-close/"+role, msg)
+				}
+			}
+		}
+	}
+}
+
 func c07StickyScenarios(tier string) []scenario {
 	var scs []scenario
 	p := 1
@@ -116,6 +225,9 @@ func c07StickyScenarios(tier string) []scenario {
 		for _, cl := range []string{"CloseNow", "Close"} {
 			scs = append(scs, scenario{Name: fmt.Sprintf("sticky/%s/%s", cl, k.String()), Cfg: explore.Config{P: p, T: 1, Horizon: 120e9}, Setup: c07StickySetup(k, cl)})
 		}
+	}
+	for _, k := range []connCfg{{Client: true, Flate: true}, {Client: true, Flate: true, CNCT: true, SNCT: true}, {Client: true}, {Client: false, Flate: true}} {
+		scs = append(scs, scenario{Name: "reread-close/" + k.String(), Cfg: explore.Config{P: 2, T: 0, Horizon: 120e9}, Setup: c07RereadSetup(k)})
 	}
 	return scs
 }
